@@ -12,7 +12,7 @@ Formats (fields inside one argument are separated by `:`; `_` = empty list):
 * `<round>` = `n:dom:cov:pess:centres:rows:picks:refine:pareto` — the environment of one call:
   `n` and three row-major `n·n` bit tables (`_` = all false; entry `i·n+j` answers the ordered pair
   `(i, j)`; pairs the implementation never queried may be left `0`: every scan of the model is
-  existential), Auer's centres (row `i` = design `i`) and `beta_t` rows, the acquisition picks
+  existential), Auer's centres and `beta_t` width rows (row `i` = design `i` in both), the acquisition picks
   `d,o;d,o;…`, VOGP_AD's refinement test `0/1`, DecoupledGP's new Pareto set.
 * `<out>`   = `done:req:refined:exceeds`, `req` = `d` or `d.o` entries separated by `,`,
   `refined` a node or `-`.
@@ -97,7 +97,9 @@ def parseEnv (s : String) : Option Env :=
     let refineTest ← parseBool rf
     let pareto ← parseNats pa
     let carr := centres.toArray
-    some { isDom, isCov, pessDom, centre := fun i => carr.getD i [], rows, picks, refineTest, pareto }
+    let warr := rows.toArray
+    some { isDom, isCov, pessDom, centre := fun i => carr.getD i [], width := fun i => warr.getD i [],
+           picks, refineTest, pareto }
   | _ => none
 
 def parseReq (s : String) : Option Req :=
